@@ -45,6 +45,7 @@ typedef struct vh_ev {
   int no;
   long ret;
   int die;
+  long dlive;   /* change of the number of live heap blocks across the call */
   char diemsg[160];
 } vh_ev_t;
 
@@ -63,6 +64,9 @@ typedef struct vh_ctx {
   char diemsg[160];
   int died;
   long curcase;
+  uint64_t caseseed;
+  int mute;      /* warm-up pass of a case (C10): nothing is logged */
+  long live0;    /* live heap blocks when the current call started (leak accounting, C11) */
 } vh_ctx_t;
 
 extern __thread vh_ctx_t *CTX;
@@ -84,8 +88,9 @@ void vh_ps(vh_ev_t *e, const char *k, const char *s);       /* string param */
 void vh_opnd(vh_ev_t *e, const char *nm, char role, mzd_t *M);
 void vh_pre(vh_ev_t *e);
 /* run the call: if (VH_CALL(e)) { ...library call... } VH_END(e) */
-#define VH_CALL(e) (CTX->armed = 1, CTX->died = 0, vh_lib_enter(), sigsetjmp(CTX->jb, 1) == 0)
+#define VH_CALL(e) (CTX->armed = 1, CTX->died = 0, CTX->live0 = vh_live_blocks, vh_lib_enter(), sigsetjmp(CTX->jb, 1) == 0)
 #define VH_END(e) do { vh_lib_leave(); CTX->armed = 0; (e)->die = CTX->died; \
+  (e)->dlive = vh_live_blocks - CTX->live0; \
   if (CTX->died) strncpy((e)->diemsg, CTX->diemsg, sizeof((e)->diemsg) - 1); } while (0)
 void vh_result(vh_ev_t *e, const char *nm, mzd_t *R); /* returned matrix: adopt if new */
 void vh_post(vh_ev_t *e);
@@ -97,6 +102,7 @@ long vh_def_words(const word *w, int nw); /* def of a word list as bit positions
 void vh_lib_enter(void);
 void vh_lib_leave(void);
 extern int vh_poison_alloc, vh_poison_free;
+extern int vh_leakcheck;         /* report leak = change of live blocks minus what the call returned (exact in cache-less builds) */
 extern long vh_fail_at;           /* fail the vh_fail_at-th in-library allocation (1-based), 0 = never */
 extern long vh_alloc_count;       /* in-library allocation requests so far */
 extern long vh_live_blocks;       /* blocks allocated in-library and not yet freed */
